@@ -78,7 +78,13 @@ def _main() -> int:
             if args.head:
                 record_generator = islice(record_generator, args.lines)
             elif args.tail:
-                record_generator = reader.records(args.priority, offset=-args.lines)
+                # An offset of 0 means "from the first record", so -n selects
+                # the last n records only for n > 0.
+                record_generator = (
+                    reader.records(args.priority, offset=-args.lines)
+                    if args.lines > 0
+                    else iter(())
+                )
 
             for record in record_generator:
                 record.colored = colored
